@@ -67,6 +67,13 @@ Add(i, j) == /\ i \in Points /\ j \in Points /\ Val(i) # 0 /\ Val(j) # 0
                   /\ r # 0        \* a sum at infinity is the INFINITY singleton, not a pool object
                   /\ Push(r, IF Kind(i) = "A" /\ Kind(j) = "A" THEN "A" ELSE "J", FALSE)
                   /\ last' = Rec("add", i, j, 0, 0, r)
+(* augmented assignment on an ALIAS of object i (acc = INFINITY + P, which hands back P itself; then acc += Q): a new value *)
+(* for the name acc, never a change of the object that P still names                                                       *)
+IAdd(i, j) == /\ i \in Points /\ j \in Points /\ Val(i) # 0 /\ Val(j) # 0
+              /\ LET r == Mod(Val(i) + Val(j)) IN
+                   /\ r # 0
+                   /\ Push(r, IF Kind(i) = "A" /\ Kind(j) = "A" THEN "A" ELSE "J", FALSE)
+                   /\ last' = Rec("iadd", i, j, 0, 0, r)
 AddInf(i, j) == /\ i \in Points /\ j \in Points /\ Val(i) # 0 /\ Mod(Val(i) + Val(j)) = 0
                 /\ Keep /\ last' = Rec("add", i, j, 0, 0, 0)
 Mul(i, k) == /\ i \in Points /\ Val(i) # 0
@@ -112,7 +119,7 @@ Next ==
   \/ \E i \in Ix : \E op \in {"x", "y", "scale"} : Read(op, i)
   \/ \E i \in Ix : ToAffine(i) \/ Double(i) \/ Neg(i) \/ Pickle(i) \/ NewKey(i)
   \/ \E i \in Ix, g \in {0, 1} : FromAffine(i, g)
-  \/ \E i, j \in Ix : Add(i, j) \/ AddInf(i, j) \/ Eq(i, j) \/ KeyEq(i, j)
+  \/ \E i, j \in Ix : Add(i, j) \/ IAdd(i, j) \/ AddInf(i, j) \/ Eq(i, j) \/ KeyEq(i, j)
   \/ \E i \in Ix, k \in Scalars : Mul(i, k)
   \/ \E i, j \in Ix, k, m \in Scalars : MulAdd(i, k, j, m)
   \/ \E i \in Ix, b \in {0, 1} : Precompute(i, b) \/ Verify(i, b)
@@ -135,7 +142,7 @@ EqExact == last.op \in {"eq", "keyeq"} => (last.res = 1) = (objs[last.i].val = o
 CopiesFaithful == last.op \in {"from_affine", "newkey", "vkof", "sk_reload", "k_reload"} /\ Len(objs) > 0 /\ last.i > 0 => objs[Len(objs)].val = objs[last.i].val
 (* arithmetic results are the group's *)
 ArithmeticExact ==
-  /\ last.op = "add" => last.res = Mod(objs[last.i].val + objs[last.j].val)
+  /\ last.op \in {"add", "iadd"} => last.res = Mod(objs[last.i].val + objs[last.j].val)
   /\ last.op = "mul" => last.res = Mod(last.k * objs[last.i].val)
   /\ last.op = "muladd" => last.res = Mod(last.k * objs[last.i].val + last.m * objs[last.j].val)
 TypeOK == \A i \in 1..Len(objs) : objs[i].val \in 0..(N - 1) /\ objs[i].kind \in {"J", "G", "A", "K", "S"}
